@@ -9,6 +9,8 @@ R4 a vacant slot fails before any backend is touched
 R5 mount-slot writers keep superblocks / mountpoints in step (also used by C14)
 R6 inode-number codec: one shift, one mask, refusal of numbers that do not fit
 R7 the set of operations the VFS does not implement is the tabled one
+R5 (cont.) clone-modify-store: every modified private copy of a mount table is stored back on every normal return
+R8 path walkers: PseudoFs::mount and PseudoFs::path_walk take the same step per component kind (`..` -> parent, name -> child)
 """
 import json
 import os
@@ -530,3 +532,4 @@ META = {
             "backend when mounts differ; vacant slots fail in get_fs_by_idx before a backend is built; slot writers and publish order; codec constants.",
     "note": "Not decided: behaviour with stale inode numbers after slot reuse; numbering consistency of the backends themselves.",
 }
+META["text"] += " " + 'Also: modified table copies are always published; the two pseudo-fs path walkers agree per component kind.'
